@@ -148,7 +148,7 @@ def exact_obligation(n, order, strategy):
             return Outcome(REFUTED, "exact-rational", "; ".join(problems[:4]), witness=inputs,
                            replay=dict(confirmed=True, observed=[list(x) for x in got], expected=[[str(ci), s] for ci, s in want], inputs=inputs))
         return Outcome(DISCHARGED, "exact-rational", f"{len(got)} columns equal the exact rational solution to 1e-9; moments exact for k < {n + order}")
-    return Obligation(name, "exact", fn, func=(FD, "finite_diff_coeffs"), size_bounded=True, timeout=120,
+    return Obligation(name, "exact", fn, func=(FD, "finite_diff_coeffs"), size_bounded=True, timeout=400,
                       sample="real output vs exact rational solution of the Vandermonde system")
 
 
